@@ -55,6 +55,11 @@ fn main() {
                     client::pty::cleanup_workdirs();
                     c
                 }
+                "K18" => {
+                    let c = replay_with(&client::ClientEngine { prop: "C18" }, &rf, &path);
+                    client::pty::cleanup_workdirs();
+                    c
+                }
                 "T12" => replay_with(&tracker::TrackerEngine { prop: "C12" }, &rf, &path),
                 "T13" => replay_with(&tracker::TrackerEngine { prop: "C13" }, &rf, &path),
                 "T14" => replay_with(&tracker::TrackerEngine { prop: "C14" }, &rf, &path),
@@ -95,6 +100,13 @@ fn check(prop: &str, tier: &str) -> i32 {
             let mut cfg = BatchCfg::from_env(tier, 1_500, 250_000, 240.0, 1800.0);
             cfg.shrink_budget = 400;
             let r = run_batch(&client::ClientEngine { prop: "C17" }, &cfg).exit_code;
+            client::pty::cleanup_workdirs();
+            r
+        }
+        "C18" => {
+            let mut cfg = BatchCfg::from_env(tier, 1_200, 200_000, 240.0, 1800.0);
+            cfg.shrink_budget = 300;
+            let r = run_batch(&client::ClientEngine { prop: "C18" }, &cfg).exit_code;
             client::pty::cleanup_workdirs();
             r
         }
